@@ -84,6 +84,26 @@ int run_walk(sg4::Engine& e)
       sched.push_back(x);
   }
   size_t spos      = 0;
+  // exact path replay ("pid/tc;pid/tc;...", the format of the walk_end record and of model-check/replay): the
+  // commutation oracle (C39) re-executes a prefix and then two transitions in both orders
+  std::vector<std::pair<long, int>> path_in;
+  if (opts.count("path") && opts["path"] != "-") {
+    std::string ps = opts["path"];
+    size_t b       = 0;
+    while (b < ps.size()) {
+      size_t e = ps.find(';', b);
+      if (e == std::string::npos)
+        e = ps.size();
+      std::string it = ps.substr(b, e - b);
+      size_t sl      = it.find('/');
+      if (!it.empty())
+        path_in.emplace_back(atol(it.substr(0, sl).c_str()), sl == std::string::npos ? 0 : atoi(it.substr(sl + 1).c_str()));
+      b = e + 1;
+    }
+  }
+  size_t ppos          = 0;
+  bool stop_at_path_end = opts.count("stopatpathend") && opts["stopatpathend"] == "1";
+  bool fp              = opts.count("fingerprint") && opts["fingerprint"] == "1";
   uint64_t rng     = opts.count("walkseed") ? strtoull(opts["walkseed"].c_str(), nullptr, 10) : 1;
   std::string strat = opts.count("walk") ? opts["walk"] : "uniform";
   long maxsteps    = opts.count("maxsteps") ? atol(opts["maxsteps"].c_str()) : 2000;
@@ -123,12 +143,34 @@ int run_walk(sg4::Engine& e)
         en.push_back(a);
     if (en.empty())
       break;
+    if (!path_in.empty() && ppos == path_in.size()) {
+      emit("S %ld %a path_end n=%ld", SEQ++, now(), step);
+      if (fp)
+        fingerprint();
+      ppos++; // once
+      if (stop_at_path_end) {
+        stopped = true;
+        break;
+      }
+    }
     if (step >= maxsteps || (stop_at_sched_end && spos >= sched.size())) {
       stopped = true;
       break;
     }
     ActorImpl* a = nullptr;
-    if (spos < sched.size()) {
+    int forced_tc = -1;
+    if (ppos < path_in.size()) {
+      for (auto* x : en)
+        if (x->get_pid() == path_in[ppos].first)
+          a = x;
+      if (a == nullptr) {
+        emit("S %ld %a path_blocked n=%ld pid=%ld", SEQ++, now(), step, path_in[ppos].first);
+        stopped = true;
+        break;
+      }
+      forced_tc = path_in[ppos].second;
+      ppos++;
+    } else if (spos < sched.size()) {
       a = en[(size_t)(sched[spos++] % (long)en.size())];
     } else if (strat == "uniform") {
       a = en[sm64(rng) % en.size()];
@@ -151,18 +193,23 @@ int run_walk(sg4::Engine& e)
     }
     int maxc = a->simcall_.observer_ ? a->simcall_.observer_->get_max_consider() : 1;
     int tc   = 0;
-    if (maxc > 1) {
+    if (forced_tc >= 0) {
+      tc = forced_tc < maxc ? forced_tc : maxc - 1;
+    } else if (maxc > 1) {
       if (spos < sched.size())
         tc = (int)(sched[spos++] % maxc);
       else
         tc = (int)(sm64(rng) % maxc);
     }
-    std::string enl;
-    for (auto* x : en)
+    std::string enl, encl;
+    for (auto* x : en) {
       enl += (enl.empty() ? "" : ",") + std::to_string(x->get_pid());
+      encl += (encl.empty() ? "" : ",") + std::to_string(x->get_pid()) + ":" +
+              std::to_string(x->simcall_.observer_ ? x->simcall_.observer_->get_max_consider() : 1);
+    }
     std::string trs = a->simcall_.observer_ ? a->simcall_.observer_->to_string() : std::string("-");
-    emit("S %ld %a step n=%ld pid=%ld aid=%s tc=%d maxc=%d en=%s tr=%s", SEQ++, now(), step, a->get_pid(),
-         aid_of(a->get_ciface()).c_str(), tc, maxc, enl.c_str(), nospace(trs).c_str());
+    emit("S %ld %a step n=%ld pid=%ld aid=%s tc=%d maxc=%d en=%s enc=%s tr=%s", SEQ++, now(), step, a->get_pid(),
+         aid_of(a->get_ciface()).c_str(), tc, maxc, enl.c_str(), encl.c_str(), nospace(trs).c_str());
     path += std::to_string(a->get_pid()) + "/" + std::to_string(tc) + ";";
     last_pid = a->get_pid();
     a->simcall_handle(tc);
@@ -181,6 +228,11 @@ int run_walk(sg4::Engine& e)
     execute_actors();
     step++;
   }
+  if (!path_in.empty() && ppos == path_in.size()) { // the path led to a state without enabled actor
+    emit("S %ld %a path_end n=%ld", SEQ++, now(), step);
+    if (fp)
+      fingerprint();
+  }
   size_t remaining = eng->get_actor_list().size();
   emit("S %ld %a walk_end steps=%ld remaining=%zu stopped=%d path=%s", SEQ++, now(), step, remaining, (int)stopped,
        path.empty() ? "-" : path.c_str());
@@ -188,8 +240,10 @@ int run_walk(sg4::Engine& e)
     emit("S %ld %a deadlock", SEQ++, now());
     dump_blocked();
   }
-  if (opts.count("fingerprint") && opts["fingerprint"] == "1")
+  if (fp) {
+    emit("S %ld %a final_state", SEQ++, now());
     fingerprint();
+  }
   if (mcinfo) {
     size_t n = exec.size();
     for (size_t i = 0; i < n; i++) {
